@@ -12,7 +12,7 @@ VARIABLES l, size, def, slot
 tcvars == <<l, size, def, slot>>
 
 IsEv(e) == l <= Len(Rec) /\ Rec[l].op = e /\ l' = l + 1
-H(r) == <<r.tag, r.idx>>
+H(r) == <<r.tag, r.idx>>      \* tag: the 64-bit hash (decimal text); idx: its slot class as observed by the harness (hash 0: class 0)
 PredOf(r) == [k |-> r.pk, x |-> r.px]
 
 TNew ==
@@ -33,11 +33,18 @@ TGet == /\ IsEv("get") /\ (Rec[l].idx < size) = TRUE
            IN (IF g[1] = "some" THEN Rec[l].some /\ Val(Rec[l]) = g[2] ELSE ~Rec[l].some) = TRUE
         /\ UNCHANGED <<size, def, slot>>
 
+(* The harness found out which hashes share a slot by watching evictions on a scratch table of this size (it   *)
+(* never computes a slot itself - the property does not say which slot a hash is kept in).  A table of n slots *)
+(* cannot keep more than n hashes apart; more classes than slots means entries live outside the table.         *)
+TProbe == /\ IsEv("probe")
+          /\ (Rec[l].panicked = FALSE /\ Rec[l].classes <= Rec[l].n) = TRUE
+          /\ UNCHANGED <<size, def, slot>>
+
 (* a payload type whose equality is not reflexive (NaN): stored and returned like any other, no panic *)
 TNan == /\ IsEv("nan") /\ (Rec[l].panicked = FALSE /\ Rec[l].ok = TRUE) = TRUE /\ UNCHANGED <<size, def, slot>>
 
 TCInit == l = 1 /\ size = 1 /\ def = [k |-> 0, a |-> 0] /\ slot = << >>
-TCNext == TNew \/ TAdd \/ TRep \/ TGet \/ TNan
+TCNext == TNew \/ TAdd \/ TRep \/ TGet \/ TNan \/ TProbe
 TCSpec == TCInit /\ [][TCNext]_tcvars
 Accepted ==
   LET d == TLCGet("stats").diameter - 1
